@@ -688,6 +688,20 @@ Proof.
   - apply sex_contract_b_sound; assumption.
 Qed.
 
+Lemma stat_contract_route_eq gstat auto_l auto_w vals w fs ms :
+  stat_contract_route gstat auto_l auto_w vals w fs ms =
+  (stat_contract_b gstat auto_l auto_w vals w fs ms, stat_route gstat auto_l vals fs ms).
+Proof.
+  unfold stat_contract_route, stat_contract_b, stat_route.
+  destruct (mood_stat gstat auto_l (map (fun x => qadd x fs) vals)); [|reflexivity].
+  destruct (mood_stat gstat auto_l (map (fun x => qadd x ms) vals)); reflexivity.
+Qed.
+
+Lemma sex_contract_route_eq gstat hap build t :
+  sex_contract_route_x gstat hap build t = (sex_contract_x_b gstat hap build t, sex_route_x gstat hap build t) /\
+  sex_contract_route_y gstat build t = (sex_contract_y_b gstat build t, sex_route_y gstat build t).
+Proof. split; apply stat_contract_route_eq. Qed.
+
 Lemma noise_tests_sound gstat eps a female hap build t :
   (bounded_noise_b eps a female hap build t = true -> bounded_noise eps a female hap build t) /\
   (centred_noise_b (sex_centre t) eps a female hap build t = true -> centred_noise (sex_centre t) eps a female hap build t) /\
